@@ -239,3 +239,7 @@ func checkC18(t *testing.T, c Case) *stats.Verdict {
 func TestC18(t *testing.T) {
 	stats.Run(t, stats.Prop[Case]{ID: "C18", Rule: ruleC18, Gen: genC18Case, Check: checkC18})
 }
+
+func FuzzC18(f *testing.F) {
+	stats.Fuzz(f, stats.Prop[Case]{ID: "C18", Rule: ruleC18, Gen: genC18Case, Check: checkC18})
+}
